@@ -25,7 +25,7 @@ PROPERTY = 'C12'
 LEVEL = 'exploration'
 RULE = ('histories of 3-30 editing operations (add_node, add_nodes_from, add_edge(s) creating nodes implicitly, set attribute, '
         'remove_node, remove_nodes_from, add/add_or_replace/remove/remove_matching interaction incl. invalid atoms, copy, subgraph, '
-        'merge_molecule between slots, Block.to_molecule, MergeAllMolecules/MergeChains) over molecules with arbitrary int keys; '
+        'merge_molecule between slots, Block.to_molecule, MergeAllMolecules/MergeChains) over molecules with arbitrary int keys (in a third of the histories multi-character string or tuple keys, without merges); '
         'compared step by step with a pure-Python model; non-trivial = the history contains a merge into a receiver that previously '
         'saw a bulk/implicit node addition, a node removal or an out-of-order key, or an edit of a copy/subgraph while its source is '
         'still compared; distinct by hash of the whole history')
@@ -77,13 +77,25 @@ class Model:
         return {t: l for t, l in self.inter.items() if l}
 
 
+_KEYMODE = ['int']
+
+
+def K(key):
+    """Node keys are ints, or (for the same histories) multi-character strings / tuples as Blocks and Links use them."""
+    if _KEYMODE[0] == 'str':
+        return 'K%d' % key
+    if _KEYMODE[0] == 'tuple':
+        return ('t', key)
+    return key
+
+
 def build_from_desc(desc):
     """Initial molecule: nodes added one by one with add_node (the common way)."""
     mol = Molecule(nrexcl=desc['nrexcl'])
     model = Model(desc['nrexcl'])
     for key, attrs in desc['nodes']:
-        mol.add_node(key, **attrs)
-        model.add_node(key, attrs)
+        mol.add_node(K(key), **attrs)
+        model.add_node(K(key), attrs)
     for a, b in desc['edges']:
         keys = list(model.nodes)
         if len(keys) < 2:
@@ -138,9 +150,9 @@ def pick_key(model, ref):
     if kind == 'idx':
         keys = list(model.nodes)
         if not keys:
-            return val
+            return K(val)
         return keys[val % len(keys)]
-    return val
+    return K(val)
 
 
 def merge_and_check(recv, recv_model, new, new_model, flags, where):
@@ -217,7 +229,17 @@ def merge_and_check(recv, recv_model, new, new_model, flags, where):
 
 
 def run(case):
+    _KEYMODE[0] = case.get('keymode', 'int')
+    try:
+        return _run(case)
+    finally:
+        _KEYMODE[0] = 'int'
+
+
+def _run(case):
     flags = set()
+    if _KEYMODE[0] != 'int':
+        flags.add('non-int-keys')
     mol, model = build_from_desc(case['init'])
     slots = [[mol, model, {'dirty': set(), 'origin': 'init'}]]
     compare(mol, model, 'initial')
@@ -234,13 +256,13 @@ def run(case):
             mol.add_node(key, **op['attrs'])
             if key in model.nodes:
                 info['dirty'].add('readd')
-            elif model.nodes and key < max(model.nodes):
+            elif _KEYMODE[0] == 'int' and model.nodes and key < max(model.nodes):
                 info['dirty'].add('out-of-order-key')
-            elif model.nodes and key > max(model.nodes) + 1:
+            elif _KEYMODE[0] == 'int' and model.nodes and key > max(model.nodes) + 1:
                 info['dirty'].add('gap-key')
             model.add_node(key, op['attrs'])
         elif name == 'add_nodes_from':
-            items = [(k, a) for k, a in op['nodes']]
+            items = [(K(k), a) for k, a in op['nodes']]
             mol.add_nodes_from(items)
             for k, a in items:
                 model.add_node(k, a)
@@ -434,6 +456,8 @@ def run(case):
                 m.inter.setdefault(itype, []).append((tuple(idx_of[a] for a in atoms), params, {}))
             slots.append([new, m, {'dirty': set(), 'origin': 'block'}])
             flags.add('block-to-molecule')
+        elif name in ('merge', 'system_merge', 'from_block') and _KEYMODE[0] != 'int':
+            continue   # merging renumbers with integer arithmetic: integer keys only
         elif name == 'merge':
             if op['other'] is None or len(slots) == 1:
                 nm, nmodel = build_from_desc(op['new'])
@@ -610,13 +634,14 @@ def strategy(tier):
     segment = st.tuples(st.lists(edit_ops, min_size=0, max_size=6), merge_op).map(lambda t: t[0] + [t[1]])
     ops = st.tuples(st.lists(segment, min_size=1, max_size=max_ops // 5), st.lists(edit_ops, max_size=4)).map(
         lambda t: [o for seg in t[0] for o in seg] + t[1])
-    return st.fixed_dictionaries({'init': init, 'ops': ops})
+    return st.fixed_dictionaries({'init': init, 'ops': ops,
+                                  'keymode': st.sampled_from(['int', 'str', 'int', 'tuple', 'int'])})
 
 
 PARTS = [
     Part('history', run, strategy=strategy,
          examples={'quick': 2400, 'thorough': 60000},
-         floors={'merge': 0.3, 'remerge': 0.15, 'remerge-after-removal': 0.02, 'remerge-after-bulk-add': 0.02,
-                 'remerge-after-implicit-add': 0.02, 'edit-of-copy': 0.05, 'edit-of-subgraph': 0.05,
+         floors={'non-int-keys': 0.1, 'merge': 0.25, 'remerge': 0.08, 'remerge-after-removal': 0.01, 'remerge-after-bulk-add': 0.008,
+                 'remerge-after-implicit-add': 0.008, 'edit-of-copy': 0.05, 'edit-of-subgraph': 0.05,
                  'invalid-interaction': 0.05, 'system-merge': 0.05}),
 ]
